@@ -453,6 +453,19 @@ static const seed_t seeds[] = {
 	"0.800000000000 0.900000000000 1.000000000000 1.100000000000 "
 	"1.200000000000 1.300000000000 1.400000000000 1.500000000000 "
 	"1.600000000000 1.700000000000 1.800000000000\n", 0 },
+    /* parameter lists whose members ask for different port counts: either
+       refused, or the loaded object can be saved again */
+    { "npd-probe-3port-sri-tri", F_NPD, "npd",
+	"#:ports 3\n#:frequencies 1\n#:parameters Sri,Tri\n"
+	"1 1 2 3 4 5 6 7 8 9 10 11 12 13 14 15 16 17 18 "
+	"1 2 3 4 5 6 7 8 9 10 11 12 13 14 15 16 17 18\n", SF_PROBE },
+    { "npd-probe-1port-il-sri", F_NPD, "npd",
+	"#:ports 1\n#:frequencies 1\n#:parameters IL,Sri\n"
+	"1 0.5 0.25\n", SF_PROBE },
+    { "npd-probe-3port-zri-hma", F_NPD, "npd",
+	"#:ports 3\n#:frequencies 1\n#:parameters Zri,Hma\n"
+	"1 1 2 3 4 5 6 7 8 9 10 11 12 13 14 15 16 17 18 "
+	"1 2 3 4 5 6 7 8 9 10 11 12 13 14 15 16 17 18\n", SF_PROBE },
     /* ---- vnacal ---- */
     { "vnacal-e12-1x1", F_VNACAL, "vnacal", vc_e12_1x1, 0 },
     { "vnacal-t8-1x1", F_VNACAL, "vnacal", vc_t8_1x1, SF_L2 },
